@@ -617,6 +617,7 @@ pub fn random_plan(rng: &mut Rng, g: &Graph, family: Family, step: usize) -> Pla
         }
     }
     plan.history_before_late_acks = rng.chance(0.5);
+    plan.abort_when_finished = rng.chance(0.15);
     plan
 }
 
@@ -1065,7 +1066,7 @@ fn jmap(h: &History) -> String {
 }
 
 /// one primary evaluation as a JSON object: everything the PyO3 boundary replay needs
-pub fn export_eval(g: &Graph, step: usize, h_in: &History, disk_before: &BTreeMap<String, String>, plan: &Plan, rep: &Report, exp: &Expect) -> String {
+pub fn export_eval(g: &Graph, step: usize, h_in: &History, disk_before: &BTreeMap<String, String>, plan: &Plan, rep: &Report, exp: &Expect, noop: bool) -> String {
     let nodes: Vec<String> = g
         .nodes
         .iter()
@@ -1093,6 +1094,8 @@ pub fn export_eval(g: &Graph, step: usize, h_in: &History, disk_before: &BTreeMa
         ("disk_before".to_string(), jarr(&disk_before.keys().map(|x| jstr(x)).collect::<Vec<_>>())),
         ("plan".to_string(), jstr(&plan.brief())),
         ("faulty".to_string(), (rep.interrupted() || !rep.errors.is_empty()).to_string()),
+        // re-evaluation of an unchanged project: no edits, the previous evaluation completed, its history handed in
+        ("noop".to_string(), noop.to_string()),
         ("rust_errors".to_string(), rep.errors.len().to_string()),
         ("expected_executed".to_string(), jarr(&exec.iter().map(|x| jstr(x)).collect::<Vec<_>>())),
         ("trace".to_string(), jarr(&rep.trace)),
@@ -1225,7 +1228,8 @@ pub fn eval_step(p: &mut Project, cfg: &ChainCfg, seed: u64, step: usize, edits:
         ));
         let case_hash = fnv(&format!("{}|{}|{:?}|{}", p.g.describe(), hist_str(&h_in), disk_before, plan.brief()));
         if cfg.export {
-            st.export.push(export_eval(&p.g, step, &h_in, &disk_before, &plan, &rep, &exp));
+            let noop = step > 0 && edits.is_empty() && !st.prev_interrupted_or_edited && !h_in.is_empty();
+            st.export.push(export_eval(&p.g, step, &h_in, &disk_before, &plan, &rep, &exp, noop));
         }
         let started = rep.started_set();
         let mut all_viols: Vec<(Violation, &'static str)> = rep.violations.iter().cloned().map(|v| (v, "")).collect();
